@@ -157,10 +157,10 @@ def cells():
         out.append(Cell('power[n=%d,%s,iters=%d%s]' % (n, kind, iters, ',hermitian' if herm else ''), 'c19:power',
                         dict(n=n, kind=kind, iters=iters, hermitian=herm), tier=tier, twin=False,
                         bounds='A %dx%d (%s) and the start vector symbolic; %d iteration(s)' % (n, n, kind, iters), **big))
-    for n, kind, iters, herm, tier in [(1, 'complex', 1, False, 'quick'), (1, 'real', 2, False, 'quick'), (1, 'full', 1, False, 'thorough'), (1, 'complex', 2, False, 'thorough'),
+    for n, kind, iters, herm, tier in [(1, 'real', 1, False, 'quick'), (1, 'real', 2, False, 'quick'), (1, 'complex', 1, False, 'thorough'), (1, 'full', 1, False, 'thorough'), (1, 'complex', 2, False, 'thorough'),
                                        (2, 'real', 1, False, 'thorough'), (2, 'real', 1, True, 'thorough'), (1, 'full', 2, False, 'thorough')]:
         out.append(Cell('scale_invariance[n=%d,%s,iters=%d%s]' % (n, kind, iters, ',hermitian' if herm else ''), 'c19:scale_invariance',
-                        dict(n=n, kind=kind, iters=iters, hermitian=herm), tier=tier, twin=(n == 1 and iters == 1 and kind == 'complex'), twin_timeout_s=300,
+                        dict(n=n, kind=kind, iters=iters, hermitian=herm), tier=tier, twin=False,
                         bounds='A %dx%d (%s), scale c > 0 and the start vector symbolic; %d iteration(s); two calls from the same start' % (n, n, kind, iters), **big))
     for fmt in ('complex', 'quaternion'):
         out.append(Cell('nonherm_fastpath[n=1,%s]' % fmt, 'c19:nonherm_hermitian_path', dict(n=1, kind='real', fmt=fmt), twin=False,
